@@ -145,6 +145,8 @@ impl Vm {
 
     let mut fiber = self.fiber;
     fiber.push_frame(self, closure, captures, arg_count as usize);
+    #[cfg(feature = "verif")]
+    self.verif_exc_event("fpush", self.fiber.frames().len() as i64);
 
     self.load_ip();
 
@@ -171,7 +173,10 @@ impl Vm {
   /// return the exit signal otherwise set the instruction
   /// pointer and current function
   pub(super) unsafe fn pop_frame(&mut self) -> Option<ExecutionSignal> {
-    match self.fiber.pop_frame() {
+    let popped = self.fiber.pop_frame();
+    #[cfg(feature = "verif")]
+    self.verif_exc_event("fpop", self.fiber.frames().len() as i64);
+    match popped {
       FiberPopResult::Ok(current_fun) => {
         self.current_fun = current_fun;
         self.load_ip();
